@@ -90,3 +90,29 @@ def report(rep, findings, tags):
         o = rep.extra.setdefault("findings_for_other_properties", {})
         for k, v in other.items():
             o[k] = o.get(k, 0) + v
+
+
+def self_test(rep, scenarios, fn, mutate, what, tries=40):
+    """Binding self-test (DESIGN 4.5): a scenario whose PREDICTION is perturbed must be reported as a mismatch by
+    the same evaluation that accepts the unperturbed one; otherwise the comparison is vacuous (machinery failure)."""
+    import copy
+    global _PROP
+    _PROP = rep.prop
+    done = 0
+    for i, scn in enumerate(scenarios[:tries]):
+        bad = mutate(copy.deepcopy(scn))
+        if bad is None:
+            continue
+        ok_out = fn(i, scn)
+        if ok_out["found"]:
+            continue                      # only scenarios that conform can demonstrate the binding
+        out = fn(i, bad)
+        rejected = bool(out["found"])
+        rep.self_tests.append(dict(test=f"perturbed prediction ({what}) of scenario {i} must be reported", reported=rejected))
+        if not rejected:
+            raise common.MachineryError(f"binding self-test failed: perturbing {what} of scenario {i} was not noticed")
+        done += 1
+        if done >= 2:
+            return
+    if done == 0:
+        raise common.MachineryError(f"binding self-test could not be run ({what}): no conforming scenario with that field among the first {tries}")
